@@ -290,7 +290,13 @@ def load_findings():
     f = VERIF / "known_findings.json"
     if not f.exists():
         return []
-    return json.loads(f.read_text())["findings"]
+    out = []
+    for e in json.loads(f.read_text())["findings"]:
+        out.append(e)
+        # "also": further signatures of the SAME finding (the same failing input seen at another column position)
+        for alt in e.get("also", []):
+            out.append(dict(e, signature=alt))
+    return out
 
 
 def _sig_match(entry_sig, sig):
